@@ -19,13 +19,28 @@ RevsAfter(h) ==
       p == IF k = 1 THEN [n \in Objs |-> Absent] ELSE StateAfter(h, k - 1)
       \* built constructively: per object the operations the standard allows
       allowed(kind, n) == {op \in OpNames : OpOK(p[n], kind, op, k)}
-      revs(kind) == {[kind |-> kind, ops |-> f] : f \in {g \in [Objs -> OpNames] : \A n \in Objs : g[n] \in allowed(kind, n)}}
+      revs(kind) == {[kind |-> kind, ops |-> f, tr |-> <<"Info", "XX">>] : f \in {g \in [Objs -> OpNames] : \A n \in Objs : g[n] \in allowed(kind, n)}}
   IN {rev \in UNION {revs(kind) : kind \in Kinds} : RevOK(p, rev, k)}
 
 RECURSIVE HistsOfLen(_)
 HistsOfLen(k) == IF k = 0 THEN {<<>>}
                  ELSE UNION {{Append(h, rev) : rev \in RevsAfter(h)} : h \in HistsOfLen(k - 1)}
 Hists == UNION {HistsOfLen(k) : k \in 1..MaxRevs}
+
+\* trailer table: every choice of optional trailer keys per revision (up to 3
+\* revisions) over histories with tables, streams and hybrid sections: the
+\* first revision retires the first object, which may come back hidden
+FirstObj == CHOOSE n \in Objs : \A m \in Objs : n <= m
+TRevsAfter(h) ==
+  LET k == Len(h) + 1
+      p == IF k = 1 THEN [n \in Objs |-> Absent] ELSE StateAfter(h, k - 1)
+      opss == IF k = 1 THEN {[n \in Objs |-> IF n = FirstObj THEN "freer" ELSE "def"]}
+              ELSE {[n \in Objs |-> "keep"], [n \in Objs |-> IF n = FirstObj THEN "hdef" ELSE "keep"]}
+  IN {rev \in [kind : Kinds, ops : opss, tr : TrailerChoices] : RevOK(p, rev, k)}
+RECURSIVE THistsOfLen(_)
+THistsOfLen(k) == IF k = 0 THEN {<<>>}
+                  ELSE UNION {{Append(h, rev) : rev \in TRevsAfter(h)} : h \in THistsOfLen(k - 1)}
+THists == UNION {THistsOfLen(k) : k \in 1..3}
 
 ProbeSeq == LET cells == [i \in 1..(Len(SortedNums) * Len(SortedGens)) |->
                            <<SortedNums[((i - 1) \div Len(SortedGens)) + 1], SortedGens[((i - 1) % Len(SortedGens)) + 1]>>]
@@ -35,12 +50,12 @@ HistCase(h) ==
   LET ps == ProbeSeq
       nums == SortedNums
   IN [t |-> "hist",
-      h |-> [k \in 1..Len(h) |-> [kind |-> h[k].kind, ops |-> [i \in 1..Len(nums) |-> h[k].ops[nums[i]]]]],
+      h |-> [k \in 1..Len(h) |-> [kind |-> h[k].kind, ops |-> [i \in 1..Len(nums) |-> h[k].ops[nums[i]]], tr |-> h[k].tr]],
       expect |-> [i \in 1..Len(ps) |-> <<ps[i][1], ps[i][2], RefLookup(h, ps[i][1], ps[i][2])>>],
       trailer |-> RefTrailer(h)]
 
 \* sharding by the position in an arbitrary but fixed enumeration
-MyHists == LET s == SetToSeq(Hists) IN {s[i] : i \in {j \in 1..Len(s) : j % Shards = Shard}}
+MyHists == LET s == SetToSeq(Hists \cup THists) IN {s[i] : i \in {j \in 1..Len(s) : j % Shards = Shard}}
 HistCases == SetToSeq({HistCase(h) : h \in MyHists})
 
 \* stream bodies: sequences of at most MaxPieces pieces
